@@ -208,7 +208,7 @@ Variable g : env.
 
 Fixpoint eval_with (e : expr) : res :=
   match e with
-  | ELit l => match lit_value l with Some v => Ok v | None => Rej end
+  | ELit l => if lit_wf l then match lit_value l with Some v => Ok v | None => Rej end else Rej   (* not a literal of the grammar: syntax error *)
   | EIdent n => lookup n g
   | ESet es => set_of (map eval_with es)
   | EUn o a => match eval_with a with Ok v => sem_un o v | r => r end
